@@ -313,6 +313,7 @@ func TestC11(t *testing.T) {
 				// at most one actor unloads (UnloadProgram requires a loaded program)
 				c.Actors = append(c.Actors, c11Actor{Kind: "unload-load", Reps: rapid.IntRange(1, 10).Draw(rt, "ureps"), YieldUs: 100})
 			}
+			st.SkipShrink(rt, c)
 			f, info := runC11(c)
 			st.Eval()
 			for _, a := range c.Actors {
